@@ -30,7 +30,7 @@ RULE = ('Hypothesis-generated histories (1-8 operations) over send/sendline/writ
         '70 KB (thorough 256 KB), interleaved with reads (a third of them ending inside a multi-byte character whose '
         'rest arrives with the next read), in bytes mode (bytes and str arguments) and unicode mode '
         '(utf-8, latin-1; utf-16 where the transport allows), on pty (raw-mode recording child), fdspawn, '
-        'SocketSpawn and PopenSpawn.  Non-trivial: >= 3 send-family calls including a non-ASCII/non-UTF-8 payload, '
+        'SocketSpawn and PopenSpawn; writelines() is given a list, tuple, generator, iterator or map.  Non-trivial: >= 3 send-family calls including a non-ASCII/non-UTF-8 payload, '
         'a payload larger than 64 KB, or a control call between sends.  Distinct by hash of the case.')
 ASSUMPTIONS = [
     'the peer\'s own recording (a raw-mode tty / a pipe / a socket) is the ground truth of what reached it',
